@@ -368,10 +368,12 @@ impl<'a> Ctx<'a> {
         for &b in others {
             for op in 0..BIN.len() {
                 let exp = model_bin(l, op, a, b);
-                let kf = if BIN[op] == "div_euclid" && vcore::exact::div_euclid_truncated_quotient_overflows(l, a, b) { Some(vcore::exact::KF_DIV_EUCLID) } else { None };
+                let in_region = BIN[op] == "div_euclid" && vcore::exact::div_euclid_truncated_quotient_overflows(l, a, b);
                 let nforms = if op < 8 { 6 } else { 1 };
                 for form in 0..nforms {
                     let got = subject(|| (e.bin)(op, form, a, b)).unwrap_or(Out::Panic);
+                    // known finding only if the observed value is exactly the documented legacy behaviour
+                    let kf = if in_region && got == vcore::exact::div_euclid_legacy_outcome(l, 2, a, b, vcore::CHECKED_PROFILE) { Some(vcore::exact::KF_DIV_EUCLID) } else { None };
                     if let (Out::V(v), 0) = (got, form) {
                         succ.push(v);
                     }
@@ -599,8 +601,9 @@ fn cmd_replay(a: &[String]) -> i32 {
         }
         "bin" => {
             let (op, form, x, y) = (pos(&BIN, &a[2]), pos(&FORMS, &a[3]), hexv(&a[4]), hexv(&a[5]));
-            let kf = if BIN[op] == "div_euclid" && vcore::exact::div_euclid_truncated_quotient_overflows(l, x, y) { Some(vcore::exact::KF_DIV_EUCLID) } else { None };
-            (subject(|| (e.bin)(op, form, x, y)).unwrap_or(Out::Panic), Some(model_bin(l, op, x, y)), kf)
+            let g = subject(|| (e.bin)(op, form, x, y)).unwrap_or(Out::Panic);
+            let kf = if BIN[op] == "div_euclid" && vcore::exact::div_euclid_truncated_quotient_overflows(l, x, y) && g == vcore::exact::div_euclid_legacy_outcome(l, 2, x, y, vcore::CHECKED_PROFILE) { Some(vcore::exact::KF_DIV_EUCLID) } else { None };
+            (g, Some(model_bin(l, op, x, y)), kf)
         }
         "int" => {
             let (op, form, x, y) = (pos(&INT, &a[2]), pos(&FORMS, &a[3]), hexv(&a[4]), hexv(&a[5]));
